@@ -1,12 +1,12 @@
 ---------------------------- MODULE MC_ChanApi ----------------------------
 (* Design check of ChanApi.tla and generator of the behaviours for chan-replay. *)
 EXTENDS ChanApi, Json
-CONSTANTS Caps, MaxOps
+CONSTANTS Caps, MaxOps, Probe      \* Probe: the sender also polls receiver_closed()
 VARIABLES c, hist
 vars == <<c, hist>>
 Op(op, n, creator) == [op |-> op, n |-> n, creator |-> creator]
 Ops == {Op("open", n, cr) : n \in Caps, cr \in {"sender", "receiver"}}
-       \cup {Op(x, 0, "") : x \in {"send", "recv", "closeS", "closeR"}}
+       \cup {Op(x, 0, "") : x \in {"send", "recv", "closeS", "closeR"} \cup (IF Probe THEN {"probe"} ELSE {})}
 Init == c = CInit /\ hist = <<>>
 Next == \E op \in Ops : /\ Enabled(c, op) /\ Len(hist) < MaxOps
                         /\ c' = Do(c, op) /\ hist' = Append(hist, op)
